@@ -316,6 +316,13 @@ func (w *World) resolveVia(via, id string, field *ggql.Field, args map[string]in
 	if v.K == "errval" { // a resolver returning a value together with an error
 		return v.S, fmt.Errorf("failed after producing %s", v.S)
 	}
+	if v.K == "errsn" { // a group whose members are a group and an error wrapping a group
+		var inner ggql.Errors
+		for i := int64(0); i < v.I; i++ {
+			inner = append(inner, fmt.Errorf("group member %d", i))
+		}
+		return nil, ggql.Errors{inner, fmt.Errorf("wrapped: %w", ggql.Errors{fmt.Errorf("group member w")})}
+	}
 	if v.K == "errs" { // a resolver returning a group of errors
 		var es ggql.Errors
 		for i := int64(0); i < v.I; i++ {
